@@ -29,7 +29,7 @@ use runner::CaseFn;
 
 fn lookup(property: &str, check: &str, thorough: bool) -> Option<Box<CaseFn>> {
     match (property, check) {
-        ("C01" | "C02" | "C03" | "C06", "pdu-scenario") | ("C20", "concurrent-tasks-subpoll") => {
+        ("C01" | "C02" | "C03" | "C06", "pdu-scenario") | ("C20", "concurrent-tasks-subpoll") | ("C04", "wire-monitor-under-faults") => {
             let prop = c_pdu::prop_of(property)?;
             // The scenario generator's bounds depend on the tier the file was recorded in.
             Some(Box::new(move |rs, nonce, replay| c_pdu::case(prop, thorough, rs, nonce, replay)))
